@@ -195,8 +195,8 @@ class SimTransport(asyncio.Transport):
 
     # --- the gateway side ------------------------------------------------------------------
     def _deliver(self, item):
-        if self.lost or self.closing:
-            return
+        if self.lost or self.closing or self.eof_sent:
+            return                      # nothing can arrive after the peer's FIN / on a dead connection
         if self.reading_paused:
             self._rx_queue.append(item)
             return
